@@ -80,3 +80,22 @@ F("position-not-threaded", ["C04", "C07"], (B_, "            return args, kwargs
 F("descriptor-stores-raw", ["C04", "C03"], (T_, "        obj.__dict__[self.name] = self.convert(value)", "        obj.__dict__[self.name] = value"))
 B("predicate-lt2", ["C04"], (B_, "            predicate=lambda x: x <= 1,", "            predicate=lambda x: x < 2,"))
 B("order-guard-flipped", ["C04"], (B_, "            if index <= prev_index and not (is_listmember and prev_is_listmember):", "            if prev_index >= index and not (is_listmember and prev_is_listmember):"))
+
+# ---------------------------------------------------------------- C16 / shortcuts
+BM_ = "ofxtools/models/bank/msgsets.py"
+F("revert-D3-duplicate-arm", ["C16"], (BM_, "            elif isinstance(trnrq, STMTENDTRNRQ):\n                stmtrq = trnrq.stmtendrq", "            elif isinstance(trnrq, STMTTRNRQ):\n                stmtrq = trnrq.stmtendrq"))
+F("revert-D4-getattr-outside-try", ["C16"], (B_, "            try:\n                subagg = getattr(self, subaggregate)\n                return getattr(subagg, attr)", "            subagg = getattr(self, subaggregate)\n            try:\n                return getattr(subagg, attr)"))
+F("getattr-handler-drops-keyerror", ["C16"], (B_, "            except (AttributeError, KeyError):\n                continue", "            except AttributeError:\n                continue"))
+F("alias-sibling-account", ["C16"], ("ofxtools/models/bank/stmt.py", "    def account(self):\n        return self.bankacctfrom", "    def account(self):\n        return self.ccacctfrom"))
+F("alias-balance-availbal", ["C16"], ("ofxtools/models/bank/stmt.py", "    def balance(self):\n        return self.ledgerbal", "    def balance(self):\n        return self.availbal", 2))
+F("ofx-statements-drops-invrs", ["C16"], ("ofxtools/models/ofx.py", '            "invstmtmsgsrsv1",\n        ):', '        ):'))
+F("ofx-statements-order", ["C16"], ("ofxtools/models/ofx.py", '            "bankmsgsrsv1",\n            "creditcardmsgsrsv1",', '            "creditcardmsgsrsv1",\n            "bankmsgsrsv1",'))
+F("wrapper-statement-wrong-child", ["C16"], ("ofxtools/models/bank/stmtend.py", "    def statement(self):\n        return self.ccstmtendrs", "    def statement(self):\n        return self.status"))
+F("invrs-tests-request-class", ["C16"], ("ofxtools/models/invest/msgsets.py", "            if isinstance(trnrs, INVSTMTTRNRS):", "            if isinstance(trnrs, INVSTMTTRNRQ):"))
+F("cursym-returns-currate", ["C16"], ("ofxtools/models/i18n.py", "        if cur is not None:\n            return cur.cursym", "        if cur is not None:\n            return cur.currate"))
+F("ccrq-drops-closing-arm", ["C16"], (BM_, "            elif isinstance(trnrq, CCSTMTENDTRNRQ):\n                stmtrq = trnrq.ccstmtendrq\n", ""))
+F("getattr-raises-keyerror", ["C16"], (B_, "        raise AttributeError(f\"'{cls}' object has no attribute '{attr}'\")", "        raise KeyError(f\"'{cls}' object has no attribute '{attr}'\")"))
+F("securities-reads-request-set", ["C16"], ("ofxtools/models/ofx.py", 'msgs = getattr(self, "seclistmsgsrsv1", None)', 'msgs = getattr(self, "seclistmsgsrqv1", None)'))
+B("rename-loop-var", ["C16"], (BM_, "trnrq)", "wrapper)", 4), (BM_, "trnrq.", "wrapper.", 4), (BM_, "for trnrq in", "for wrapper in", 2))
+B("assert-form-arm", ["C16"], (BM_, "            elif isinstance(trnrq, CCSTMTENDTRNRQ):\n                stmtrq = trnrq.ccstmtendrq\n", "            else:\n                assert isinstance(trnrq, CCSTMTENDTRNRQ)\n                stmtrq = trnrq.ccstmtendrq\n"))
+B("getattr-handler-exception", ["C16"], (B_, "            except (AttributeError, KeyError):\n                continue", "            except (KeyError, AttributeError):\n                logger.debug(\"miss\")\n                continue"))
